@@ -190,6 +190,48 @@ pub fn nudged(lon: f64, lat: f64, k: i32) -> Vec<(f64, f64)> {
   v
 }
 
+/// Exponent sweep: positions at +-10^-k and +-2^-k (every k) from the critical latitudes (equator,
+/// transition latitudes, square-cell latitudes, poles) and from the critical meridians (k pi/4):
+/// a tolerance, snap distance or series cut-off hidden in the code acts at one specific magnitude,
+/// between the 1-ulp neighbours and the cell-sized neighbours the other alphabets provide.
+pub fn exponent_sweep_positions() -> Vec<(f64, f64)> {
+  let tl = transition_lat();
+  let sq = 0.39934019947897773;
+  let mut offs: Vec<f64> = vec![];
+  for k in 1..=17 {
+    offs.push(10f64.powi(-k));
+    offs.push(3.3 * 10f64.powi(-k));
+  }
+  for k in (4..=60).step_by(4) {
+    offs.push(2f64.powi(-k));
+  }
+  let mut v = vec![];
+  for &lc in &[0.0, tl, -tl, sq, -sq, HALF_PI, -HALF_PI] {
+    for &o in &offs {
+      for s in [-1.0, 1.0] {
+        let lat = lc + s * o;
+        if lat.abs() > HALF_PI {
+          continue;
+        }
+        for &lon in &[0.31, PI / 4.0, 1.0, 5.5, PI / 2.0] {
+          v.push((lon, lat));
+        }
+      }
+    }
+  }
+  for q in 0..=8 {
+    let lc = q as f64 * PI / 4.0;
+    for &o in &offs {
+      for s in [-1.0, 1.0] {
+        for &lat in &[0.2, tl, 1.0, -1.3, 0.0] {
+          v.push((lc + s * o, lat));
+        }
+      }
+    }
+  }
+  v
+}
+
 /// A few generic off-lattice points (lon, lat).
 pub fn generic_points() -> Vec<(f64, f64)> {
   vec![
